@@ -4,13 +4,14 @@ set -u
 W=/tmp/confirm_wt
 git -C /repo worktree remove --force $W 2>/dev/null; rm -rf $W
 git -C /repo worktree add -q --detach $W HEAD || exit 1
-for d in /tmp/mut/C*/_out; do
+SRC=${SRC:-/tmp/mut}; LETTERS=${LETTERS:-"A B"}; ONLY=${ONLY:-C*}
+for d in $SRC/$ONLY/_out; do
   P=$(basename $(dirname $d))
-  for X in A B; do
+  for X in $LETTERS; do
     [ -f $d/patch_$X.diff ] || continue
     ID=${P}-${X}
     OUT=/verif/seeded/$ID; mkdir -p $OUT
-    cp $d/patch_$X.diff $OUT/patch.diff; sed "s#/tmp/mut/$P#WORKTREE#g" $d/demo_$X.py > $OUT/demo.py
+    cp $d/patch_$X.diff $OUT/patch.diff; sed "s#$SRC/$P#WORKTREE#g" $d/demo_$X.py > $OUT/demo.py
     [ -f $d/REPORT.md ] && cp $d/REPORT.md $OUT/agent_report.md
     cd $W && git checkout -q -- . && git clean -fdq
     sed "s#WORKTREE#$W#g" $OUT/demo.py > $W/_demo.py
